@@ -202,6 +202,10 @@ def prop_case(draw, shard, tier, family="propagators"):
     dt = draw(st.sampled_from([0, 1, -1, 60 * US]) | gd.mixed_int(-span, span, 2))
     if kind.startswith("keplernum-"):
         dt = abs(dt) + 600 * US
+    if kind.startswith("keplernum") and not gd.leap_free(us - abs(dt) - 1800 * US, us + abs(dt) + 1800 * US, leaps):
+        # the integrator walks epoch + k * step (at least 8 steps, also backward) in the epoch's own clock: a leap
+        # second inside that walk is outside what the library handles (C03), whatever the label
+        us += 2 * US_DAY
     dt = gd.push_out_of_leap_windows(us + dt, leaps) - us
     arg = draw(st.sampled_from(["date", "date", "timedelta"]))
     # NonePropagator.propagate(timedelta) stores the timedelta as the date (a C08 matter, not a label one)
@@ -369,13 +373,8 @@ def check_prop(case):
         extra_vel = (2 * extra + 2 * vbody * drift) / (2 * half) + 1e-9
     worst = 0.0
     for k, ((g, gdate, want), (r, rdate, _)) in enumerate(zip(got, ref)):
-        if kind.startswith("keplernum"):
-            # the numerical propagator interpolates its steps on float MJD abscissae (one ulp = 0.63 us): the
-            # nodes built from another label's clock may differ by that ulp
-            extra = max(extra, float(np.linalg.norm(r[3:])) * 1.5e-6)
         worst = max(worst, compare_states(f"{desc} [{k}]", g, r, dts, kind=f"{kind}-label-dependent", extra_pos=extra,
-                                          extra_vel=extra_vel if not kind.startswith("keplernum") else
-                                          (MU_E / max(float(np.linalg.norm(r[:3])), 6e6) ** 2) * 1.5e-6 + 1e-9,
+                                          extra_vel=extra_vel,
                                           mu=go.MU[case["body"]] if kind == "kepler-other-body" else None))
         same_instant(f"{desc} [{k}]", gdate, rdate, labels)
     cls = [f"kind:{kind}", f"eop:{t3.cfg()}", f"X:{X}", f"Y:{Y}", f"arg:{case['arg']}"] + clone_classes(case)
